@@ -136,8 +136,35 @@ def gen_graph(rng, nmax=12, emax=20, vocab=VOCAB, weights=None, idp="n") -> dict
                 tags.append(rng.choice(["", 7, None]))
         nodes.append([i, lab, tags])
     ws = weights or [0.8, 0.5, -0.7, 0.0, 1.0, 2.5, 1e-7, 0.3, -1.0, 1e3]
-    shape = rng.choice(["rand", "chain", "star", "cycle", "rand", "rand"])
+    shape = rng.choice(["rand", "chain", "star", "cycle", "rand", "rand", "tworoute", "tworoute"])
     pairs = []
+    strong = {}
+    if shape == "tworoute" and n >= 6:
+        # a long strong route and a short route whose first edge is weak lead to the same node, which
+        # then continues: discovery order (by magnitude) and hop distance disagree, so the node is first
+        # seen at the long distance and later relaxed to the short one
+        L = rng.randint(3, min(4, n - 3))
+        route = ids[: L + 1]              # ids[0] -> ... -> ids[L]
+        c = ids[L + 1]
+        tail = ids[L + 2:]
+        pairs = [(route[i], route[i + 1]) for i in range(L)]
+        for pr in pairs:
+            strong[pr] = ("supports", 1.0)
+        pairs += [(route[0], c), (c, route[L])]
+        strong[(route[0], c)] = ("supports", rng.choice([0.01, 0.05, 0.1]))
+        strong[(c, route[L])] = ("supports", 1.0)
+        prev = route[L]
+        for t in tail[: rng.randint(1, 2)]:
+            pairs.append((prev, t))
+            strong[(prev, t)] = ("supports", 1.0)
+            prev = t
+        for i, nd in enumerate(nodes):
+            if nd[0] == route[0]:
+                nd[1] = nd[1] or rng.choice(vocab)
+            elif rng.random() < 0.7:
+                nd[1], nd[2] = (f"zz{i}", None)  # keep the other nodes from seeding
+    elif shape == "tworoute":
+        shape = "rand"
     if shape == "chain":
         pairs = [(ids[i], ids[i + 1]) for i in range(n - 1)]
     elif shape == "star":
@@ -148,7 +175,13 @@ def gen_graph(rng, nmax=12, emax=20, vocab=VOCAB, weights=None, idp="n") -> dict
     pairs += [(rng.choice(ids), rng.choice(ids)) for _ in range(m if shape == "rand" else m // 3)]
     if pairs and rng.random() < 0.3:
         pairs.append(rng.choice(pairs))  # parallel edge
-    edges = [[f"e{k}", s, d, rng.choice(ws), rng.choice(RELS)] for k, (s, d) in enumerate(pairs)]
+    edges = []
+    for k, (s, d) in enumerate(pairs):
+        if (s, d) in strong and rng.random() < 0.9:
+            rel, w = strong[(s, d)]
+            edges.append([f"e{k}", s, d, w, rel])
+        else:
+            edges.append([f"e{k}", s, d, rng.choice(ws), rng.choice(RELS)])
     return {"nodes": nodes, "edges": edges}
 
 
